@@ -122,30 +122,10 @@ def make_switch_update(prob, sw, info):
 
 
 def restart_is_well_conditioned(prob, cfg1, cb_entry, objB, ref_x, tol):
-    """Conditioning probe for the differential oracle: rerun the reference restart from the same checkpoint with its
-    pairs perturbed in the last bits (three fixed patterns). If the reference's own next iterate moves by more than the
-    comparison tolerance, the comparison is decided by rounding, not by what the solver does with the state."""
-    import copy
+    from vf.observe import continuation_is_well_conditioned
 
-    for k in range(3):
-        ck = copy.deepcopy(cb_entry["live"])
-        sk = np.array(ck.hess_inv.sk, dtype=float, copy=True)
-        yk = np.array(ck.hess_inv.yk, dtype=float, copy=True)
-        if sk.size == 0:
-            return True
-        idx = np.arange(sk.size).reshape(sk.shape)
-        sgn_s = np.where((idx + k) % 2 == 0, 1.0, -1.0)
-        sgn_y = np.where((idx // 2 + k) % 2 == 0, 1.0, -1.0)
-        ck.hess_inv.sk = sk * (1.0 + 2.0 * EPS * sgn_s)
-        ck.hess_inv.yk = yk * (1.0 + 2.0 * EPS * sgn_y)
-        alt = run_min(prob, cfg1, checkpoint=ck, x0=np.array(cb_entry["snap"]["x"], copy=True), obj=objB)
-        if alt.exc is not None:
-            if isinstance(alt.exc, np.linalg.LinAlgError):
-                return False
-            continue  # anything else is not evidence of ill-conditioning: keep judging
-        if float(np.max(np.abs(alt.res["x"] - ref_x))) > 0.1 * tol:
-            return False
-    return True
+    return continuation_is_well_conditioned(
+        lambda ck: run_min(prob, cfg1, checkpoint=ck, x0=np.array(cb_entry["snap"]["x"], copy=True), obj=objB), cb_entry["live"], ref_x, tol)
 
 
 def check_switch(spec, stats=None):
